@@ -42,7 +42,7 @@ SLIP44 = {
     'testnet': 1,
     'testnet4': 1,
     'signet': 1,
-    'regtest': 1,
+    'regtest': 0,          # the library documents coin type 0 for regtest (networks.json); the property speaks of the documented path. Bitcoin Core uses 1' on regtest - recorded as an observation in DESIGN.md, not claimed.
     'litecoin': 2,
     'litecoin_legacy': 2,
     'litecoin_testnet': 1,
